@@ -289,12 +289,20 @@ func (p *ParserZH) setStmtCurrentLine(s syntax.Statement, tk *syntax.Token) {
 
 // wrap 0x2250 InvalidSyntaxCurr - with current token's startIdx
 func (p *ParserZH) getInvalidSyntaxCurr() error {
-	startIdx := p.TokenP1.StartIdx
-	return zerr.InvalidSyntax(startIdx)
+	return zerr.InvalidSyntax(p.currentStartIdx())
+}
+
+// currentStartIdx - start index of the current token; there is no current token yet
+// while the very first token of the text is being parsed
+func (p *ParserZH) currentStartIdx() int {
+	if p.TokenP1 == nil {
+		return 0
+	}
+	return p.TokenP1.StartIdx
 }
 
 func (p *ParserZH) getInvalidSyntaxPeek() error {
-	startIdx := p.TokenP1.StartIdx
+	startIdx := p.currentStartIdx()
 	if p.TokenP2 != nil {
 		startIdx = p.TokenP2.StartIdx
 	}
@@ -303,7 +311,7 @@ func (p *ParserZH) getInvalidSyntaxPeek() error {
 }
 
 func (p *ParserZH) getUnexpectedIndentPeek() error {
-	startIdx := p.TokenP1.StartIdx
+	startIdx := p.currentStartIdx()
 	if p.TokenP2 != nil {
 		startIdx = p.TokenP2.StartIdx
 	}
@@ -312,7 +320,7 @@ func (p *ParserZH) getUnexpectedIndentPeek() error {
 }
 
 func (p *ParserZH) getExprMustTypeIDPeek() error {
-	startIdx := p.TokenP1.StartIdx
+	startIdx := p.currentStartIdx()
 	if p.TokenP2 != nil {
 		startIdx = p.TokenP2.StartIdx
 	}
